@@ -14,6 +14,7 @@ mod ops6;
 mod ops7;
 mod ops8;
 mod ops9;
+mod ops10;
 
 fn main() {
     std::panic::set_hook(Box::new(|_| {}));
